@@ -133,6 +133,12 @@ def perturbations(tree, combiner):
     # value for a field not in the splitter
     for g in unused + OTHER_FIELDS + [UNKNOWN]:
         out.append(("extra-value", f"value for {g} which is not in the splitter", dict(base, extra=g)))
+    # a misspelt / renamed keyword: the value meant for splitter field f arrives under another name g, so ONE splitter field
+    # has no value and ONE non-splitter field has one (the name counts still agree) -- seeded change C05-2
+    for f in fs:
+        for g in (unused + OTHER_FIELDS)[:2]:
+            out.append(("renamed-keyword", f"value for {f} given as {g}", dict(base, drop=f, extra=g)))
+            out.append(("renamed-keyword", f"value for {f} given as {g} in a re-split (overwrite=True) of a task already split over {f}", dict(base, drop=f, extra=g, presplit=f)))
     # combiner field that is not split
     for g in unused + OTHER_FIELDS + [UNKNOWN]:
         out.append(("combiner-not-split", f"combine({g!r})", dict(base, combiner=[g])))
@@ -229,6 +235,10 @@ def deductive(ctx):
     from contracts import state_validation as SV
 
     summarize(ctx, verify(ctx, SV.contract()))
+    # Task.split: accepted only if values are given for exactly the splitter's fields (both guards, on every path)
+    from contracts import split_validation as TS
+
+    summarize(ctx, verify(ctx, TS.contract()))
 
 
 def run(ctx):
